@@ -66,7 +66,15 @@ def check_hints(ctx: Ctx, case) -> None:
     if len(bpm) != n:
         ctx.fail("tempo-events", f"{len(bpm)} tempo events parsed, {n} written", case)
     n_eval = 0
-    for t in case["ticks"]:
+    # a second chart with another tempo map is alive and answers queries in between (no shared state)
+    # (every tempo a little faster, so every tick stays inside the time domain)
+    shadow = _bpm_events(ctx, {"res": case["res"], "tempo": [[a, b + 1 + b // 3] for a, b in case["tempo"]]})
+    for ti, t in enumerate(case["ticks"]):
+        if shadow is not None and ti % 2:
+            try:
+                shadow.timestamp_at_tick(t)
+            except Exception:  # noqa: BLE001  (the shadow is not under test)
+                pass
         g = tm.governing(t)
         try:
             base_ts, base_idx = bpm.timestamp_at_tick(t)
@@ -81,6 +89,11 @@ def check_hints(ctx: Ctx, case) -> None:
             ctx.fail("queries-agree", f"tick {t}: {plain} != {base_ts}", case)
         for h in range(0, n + 1):
             n_eval += 1
+            if shadow is not None and (ti + h) % 5 == 0:
+                try:
+                    shadow.timestamp_at_tick(t, start_iteration_index=min(h, len(shadow) - 1))
+                except Exception:  # noqa: BLE001
+                    pass
             try:
                 got = bpm.timestamp_at_tick(t, start_iteration_index=h)
             except ValueError:
